@@ -13,12 +13,22 @@ EDITS = {
  'comments-whitespace': ('src/token.rs', [('    pub(crate) fn same_source_as(self, other: TokenInner) -> bool {', '    // two tokens belong to the same source registration\n    pub(crate) fn same_source_as(self,   other: TokenInner) -> bool {')]),
  'cvt-mode-if-chain': ('src/sys.rs', [('    match mode {\n        Mode::Edge => PollMode::Edge,\n        Mode::Level => PollMode::Level,\n        Mode::OneShot => PollMode::Oneshot,\n    }', '    if let Mode::Edge = mode {\n        PollMode::Edge\n    } else if let Mode::Level = mode {\n        PollMode::Level\n    } else {\n        PollMode::Oneshot\n    }')]),
  'timer-unregister-if-let-take': ('src/sources/timer.rs', [('        if let Some(registration) = self.registration.take() {', '        let taken = self.registration.take();\n        if let Some(registration) = taken {')]),
- 'list-get-explicit-match': ('src/list.rs', [('        if entry.token.same_source_as(token) {\n            Ok(entry)\n        } else {\n            Err(crate::Error::InvalidToken)\n        }', '        if !entry.token.same_source_as(token) {\n            return Err(crate::Error::InvalidToken);\n        }\n        Ok(entry)')]),
+ 'list-get-explicit-match': ('src/list.rs', []),
  'postaction-bitor-match-reorder': ('src/sources/mod.rs', []),
  'channel-early-return': ('src/sources/channel.rs', [('        if disconnected {\n            Ok(PostAction::Remove)\n        } else if clear_readiness {\n            Ok(action)\n        } else {', '        if disconnected {\n            return Ok(PostAction::Remove);\n        }\n        if clear_readiness {\n            Ok(action)\n        } else {')]),
  'ping-local-rename': ('src/sources/ping/eventfd.rs', [('                let close = (counter & INCREMENT_CLOSE) != 0;\n                let ping = (counter & (u64::MAX - 1)) != 0;\n\n                if ping {', '                let closed = (counter & INCREMENT_CLOSE) != 0;\n                let pinged = (counter & (u64::MAX - 1)) != 0;\n\n                if pinged {'), ('                if close {\n                    Ok(PostAction::Remove)', '                if closed {\n                    Ok(PostAction::Remove)')]),
  'run-loop-form': ('src/loop_logic.rs', [('        while !self.signals.stop.load(Ordering::Acquire) {\n            self.dispatch(timeout, data)?;\n            cb(data);\n        }\n        Ok(())', '        loop {\n            if self.signals.stop.load(Ordering::Acquire) {\n                break;\n            }\n            self.dispatch(timeout, data)?;\n            cb(data);\n        }\n        Ok(())')]),
- 'wheel-cancel-closure-form': ('src/sources/timer.rs', []),
+ 'wheel-cancel-closure-param': ('src/sources/timer.rs', [('self.heap.retain(|data| data.counter != counter);', 'self.heap.retain(|d| d.counter != counter);')]),
+ 'list-position-closure-param': ('src/list.rs', [('.position(|slot| slot.source.is_none());', '.position(|s| s.source.is_none());')]),
+ 'lifecycle-retain-form': ('src/sources/mod.rs', [('self.values.retain(|it| it != &token)', 'self.values.retain(|v| *v != token)')]),
+ 'remove-take-local': ('src/loop_logic.rs', [('            if let Some(source) = source.take() {\n                trace!(source = entry_token.get_id(), "Removing source");', '            let taken = source.take();\n            if let Some(source) = taken {\n                trace!(source = entry_token.get_id(), "Removing source");')]),
+ 'generic-token-match': ('src/sources/generic.rs', [('        if self.token != Some(token) {\n            return Ok(PostAction::Continue);\n        }', '        match self.token {\n            Some(t) if t == token => {}\n            _ => return Ok(PostAction::Continue),\n        }')]),
+ 'dispatch-wait-variable': ('src/loop_logic.rs', [('        let now = Instant::now();\n        {\n            let mut extra_lifecycle_sources = self', '        let now = Instant::now();\n        let mut wait = timeout;\n        {\n            let mut extra_lifecycle_sources = self'), ('                        timeout = Some(Duration::ZERO);', '                        wait = Some(Duration::ZERO);'), ('                let result = poll.poll(timeout);', '                let result = poll.poll(wait);'), ('                        if let Some(to) = timeout {', '                        if let Some(to) = wait {'), ('                                timeout = Some(to - elapsed);', '                                wait = Some(to - elapsed);')]),
+ 'signals-loop-deref': ('src/sources/signals.rs', [('        let mut mask = SigSet::empty();\n        for &s in signals {\n            mask.add(s.as_nix());\n        }\n\n        // Mask the signals for this thread', '        let mut mask = SigSet::empty();\n        for s in signals {\n            mask.add((*s).as_nix());\n        }\n\n        // Mask the signals for this thread')]),
+ 'token-wrapping-literal': ('src/token.rs', [('self.version.wrapping_add(1)', 'self.version.wrapping_add(1u16)')]),
+ 'idles-loop-var': ('src/loop_logic.rs', [('        for idle in idles {\n            idle.borrow_mut().dispatch(data);\n        }', '        for cb in idles {\n            cb.borrow_mut().dispatch(data);\n        }')]),
+ 'ping-close-early': ('src/sources/ping/eventfd.rs', [('                if close {\n                    Ok(PostAction::Remove)\n                } else {\n                    Ok(PostAction::Continue)\n                }', '                Ok(if close { PostAction::Remove } else { PostAction::Continue })')]),
+ 'transient-remove-arm-order': ('src/sources/transient.rs', []),
 }
 only = sys.argv[1:]
 rows = []
